@@ -1,20 +1,27 @@
-import NbioVerif.Model.JobQ
+import NbioVerif.Model.ExecQ
 /-!
-# WebSocket callback plumbing = per-frame receive steps ∘ the connection's job queue (JobQ instance)
+# WebSocket callback plumbing = per-message receive steps ∘ the connection's job queue (`ExecQ`, instance `conn`)
 
-Go code modelled (poller-driven path, `nbhttp/websocket`):
+The job queue is **`ExecQ`** — the transition system C05's theorems are about and `jobqdrv` ties to
+`Conn.Execute/MustExecute/execute` — not a copy: the state embeds `ExecQ.St`, every step of this module performs
+exactly one `ExecQ.step .conn` (`step_q`), so every reachable queue state here is an `ExecQ`-reachable state
+(`run_q_reachable`) and C05's theorems (one at a time, FIFO, exactly once, no lost job) apply verbatim. What this
+module adds is *which* jobs are submitted in *which* order:
 
-* `Upgrader.Upgrade` runs inside the HTTP request's job (`parser.Execute` = `nbc.Execute`, conn.go:185); the open
-  handler is called inside that job (upgrader.go:546) — job id `0`.
-* `Conn.Parse` (one caller at a time: the poller / the single read task) delivers each complete message with
-  `handleMessage` → `c.Execute(job)` (conn.go:201-223, non-must: refused once the conn is closed) — message number
-  `i` in wire order is job id `i + 2`.
-* `closeWithError` sets `closed` (model: `flip`), then the engine's OnClose runs
-  `c.MustExecute(CloseAndClean → onClose)` (nbhttp/engine.go:1167-1181) — job id `1`, submitted once (`notify`).
-* `run` / `next` are the job queue's drainer steps (JobQ).
-
-The state embeds `JobQ.St` and every step is `JobQ.step`, so JobQ's invariant (FIFO, exactly once, single drainer)
-applies verbatim; what this module adds is *which* jobs are submitted in *which* order.
+* `upgrade` — the upgrade request's job is submitted (`parser.Execute` = `nbc.Execute`, conn.go:185), job id `0`.
+  `Upgrader.Upgrade` runs inside that job: it installs the ws session, writes the 101 response and **then** calls the
+  open handler (upgrader.go:534-548). If the connection has been closed before the job is entered, the response write
+  fails, `Upgrade` returns the error, the ws session is cleared: **no** open callback and, later, no ws close callback
+  (`established = some false`).
+* `recv` — `Conn.Parse` (one caller at a time) completes the next message and dispatches it with `c.Execute(job)`
+  (conn.go:201-223; refused once the conn is closed) — message `i` in wire order is job id `i + 2`. A client sends
+  frames only after it has received the 101 response, i.e. once `established = some true`.
+* `flip` — `closeWithError` wins the test-and-set of `closed`.
+* `notify` — the engine's OnClose runs `c.MustExecute(CloseAndClean → onClose)` (nbhttp/engine.go:1167-1181), job
+  id `1`, submitted once (the "once" is C03's/C18's close-callback-exactly-once; listed as an assumption).
+* `q a` — a drainer step of the queue itself: `spawn d`, `start d`, `finish d p`, `next d` (ExecQ's own actions;
+  `submit`/`close` are only available through the four steps above). Entering job `0` (`start`) decides `established`
+  (once: the job is accepted once, hence entered once — ExecQ's exactly-once).
 -/
 namespace WsCb
 
@@ -23,41 +30,60 @@ def jobClose : Nat := 1
 def jobMsg (i : Nat) : Nat := i + 2
 
 structure St where
-  q        : JobQ.St
-  upgraded : Bool
-  wireMsgs : Nat      -- complete messages parsed so far
-  accMsgs  : Nat      -- ghost: messages whose job was accepted
-  notified : Bool     -- the close job has been submitted
+  q           : ExecQ.St
+  upgraded    : Bool          -- the upgrade job has been accepted
+  wireMsgs    : Nat           -- complete messages parsed so far
+  accMsgs     : Nat           -- ghost: messages whose job was accepted
+  notified    : Bool          -- the close job has been submitted
+  established : Option Bool   -- none: the upgrade job has not been entered; some b: entered with the conn open = b
   deriving Repr
 
-def init : St := { q := JobQ.init, upgraded := false, wireMsgs := 0, accMsgs := 0, notified := false }
+def init : St :=
+  { q := ExecQ.init, upgraded := false, wireMsgs := 0, accMsgs := 0, notified := false, established := none }
 
 inductive Act
-  | upgrade       -- the upgrade request's job is submitted (Execute)
-  | recv          -- the parser completes the next message and submits its job (Execute)
-  | flip          -- closeWithError wins the test-and-set
-  | notify        -- engine OnClose → MustExecute(close job)
-  | run           -- drainer runs the current job
-  | next          -- drainer takes the lock: next job or exit
+  | upgrade
+  | recv
+  | flip
+  | notify
+  | q (a : ExecQ.Act)
   deriving Repr
 
-def jstep (q : JobQ.St) (a : JobQ.Act) : JobQ.St := (JobQ.step q a).getD q
+/-- the drainer actions of the queue (submissions and the close flag go through `upgrade/recv/notify/flip`) -/
+def drainerAct : ExecQ.Act → Bool
+  | .submit _ _ => false
+  | .close => false
+  | _ => true
+
+/-- does `a` enter the upgrade job? -/
+def entersOpen (q : ExecQ.St) : ExecQ.Act → Bool
+  | .start d =>
+    match q.drs[d]? with
+    | some x => x.ph == .ready && x.job == jobOpen
+    | none => false
+  | _ => false
+
+/-- `established` after drainer action `a`: decided when the upgrade job is entered for the first time -/
+def nextEst (s : St) (a : ExecQ.Act) : Option Bool :=
+  if entersOpen s.q a && s.established.isNone then some (!s.q.closed) else s.established
 
 def step (s : St) : Act → Option St
   | .upgrade =>
     if s.upgraded || s.q.closed then none
-    else some { s with q := jstep s.q (.submit jobOpen false), upgraded := true }
+    else (ExecQ.step .conn s.q (.submit jobOpen false)).map fun q => { s with q := q, upgraded := true }
   | .recv =>
-    if !s.upgraded then none
-    else some { s with q := jstep s.q (.submit (jobMsg s.wireMsgs) false), wireMsgs := s.wireMsgs + 1,
-                       accMsgs := if s.q.closed then s.accMsgs else s.accMsgs + 1 }
-  | .flip => some { s with q := jstep s.q .close }
+    if s.established != some true then none
+    else (ExecQ.step .conn s.q (.submit (jobMsg s.wireMsgs) false)).map fun q =>
+      { s with q := q, wireMsgs := s.wireMsgs + 1, accMsgs := if s.q.closed then s.accMsgs else s.accMsgs + 1 }
+  | .flip => (ExecQ.step .conn s.q .close).map fun q => { s with q := q }
   | .notify =>
     if s.q.closed && !s.notified && s.upgraded then
-      some { s with q := jstep s.q (.submit jobClose true), notified := true }
+      (ExecQ.step .conn s.q (.submit jobClose true)).map fun q => { s with q := q, notified := true }
     else none
-  | .run => (JobQ.step s.q .run).map fun q => { s with q := q }
-  | .next => (JobQ.step s.q .next).map fun q => { s with q := q }
+  | .q a =>
+    if !drainerAct a then none
+    else (ExecQ.step .conn s.q a).map fun q =>
+      { s with q := q, established := nextEst s a }
 
 def run : St → List Act → St
   | s, [] => s
@@ -65,9 +91,16 @@ def run : St → List Act → St
     | some s' => run s' as
     | none => run s as
 
-/-- the callback sequence the property prescribes for the jobs accepted so far -/
+/-- the job sequence the property prescribes for what has been accepted so far -/
 def expected (s : St) : List Nat :=
   (if s.upgraded then [jobOpen] else []) ++ (List.range s.accMsgs).map jobMsg ++ (if s.notified then [jobClose] else [])
+
+/-- does job `j` of this connection invoke a WebSocket callback? Not when the upgrade failed: then job `0` returns
+    the error without calling the open handler and job `1` only cleans the HTTP parser up. -/
+def isCallback (s : St) (_j : Nat) : Bool := s.established != some false
+
+/-- the WebSocket callbacks that have completed, in order -/
+def callbacks (s : St) : List Nat := s.q.done.filter (isCallback s)
 
 /-! ## the transferred path (`UpgradeAndTransferConnToPoller`, upgrader.go:465-506)
 
@@ -87,21 +120,22 @@ def tinit : TSt := { base := init, log := [], openDone := false }
 inductive TAct
   | register      -- AddTransferredConn + 101 response: the poller may deliver messages from now on
   | openCb        -- the open handler (called by Upgrade after the response) completes
-  | recv | flip | notify | run | next
+  | recv | flip | notify
+  | q (a : ExecQ.Act)
   deriving Repr
 
 def tstep (s : TSt) : TAct → Option TSt
-  | .register => if s.base.upgraded then none else some { s with base := { s.base with upgraded := true } }
+  | .register =>
+    if s.base.upgraded then none else some { s with base := { s.base with upgraded := true, established := some true } }
   | .openCb =>
     if s.base.upgraded && !s.openDone then some { s with log := s.log ++ [jobOpen], openDone := true } else none
   | .recv => (step s.base .recv).map fun b => { s with base := b }
   | .flip => (step s.base .flip).map fun b => { s with base := b }
   | .notify => (step s.base .notify).map fun b => { s with base := b }
-  | .run =>
-    match s.base.q.drainer, s.base.q.list[s.base.q.idx]? with
-    | some false, some j => (step s.base .run).map fun b => { s with base := b, log := s.log ++ [j] }
-    | _, _ => none
-  | .next => (step s.base .next).map fun b => { s with base := b }
+  | .q a =>
+    (step s.base (.q a)).map fun b =>
+      { s with base := b, log := if b.q.done.length > s.base.q.done.length then s.log ++ b.q.done.drop s.base.q.done.length
+                                  else s.log }
 
 def trun : TSt → List TAct → TSt
   | s, [] => s
